@@ -134,7 +134,7 @@ Definition uri_comp (c : bytes) : Prop :=
 
 Definition uri_comp_num (c : bytes) : Prop :=
   exists t v, c = comp_enc t v /\ valid_type t /\ wf_bytes v /\ N.of_nat (length v) < two64
-              /\ (is_alt_type t = true -> exists m, m < two64 /\ v = nni_enc m).
+              /\ (is_alt_type t = true -> nni_len_ok (length v) = true -> exists m, m < two64 /\ v = nni_enc m).
 
 Lemma comp_enc_generic_empty t v :
   valid_type t -> comp_enc t v = [8; 0] -> t = 8 /\ v = [].
@@ -186,7 +186,7 @@ Definition to_str_body (t : N) (v : bytes) : str :=
   if t =? 1 then s_sha256digest ++ 61 :: hex_print v
   else if t =? 2 then s_params_sha256 ++ 61 :: hex_print v
   else match alt_by_type alt_uri t with
-       | Some k => k ++ 61 :: dec_print (be_to_N v)
+       | Some k => if nni_len_ok (length v) then k ++ 61 :: dec_print (be_to_N v) else uri_body t v
        | None => uri_body t v
        end.
 
@@ -196,7 +196,7 @@ Proof.
   intros Ht Hl. unfold comp_to_str, to_str_body. rewrite comp_split_enc by assumption. cbn [bind].
   unfold TYPE_IMPLICIT_SHA256, TYPE_PARAMETERS_SHA256.
   destruct (t =? 1); [reflexivity|]. destruct (t =? 2); [reflexivity|].
-  destruct (alt_by_type alt_uri t); reflexivity.
+  destruct (alt_by_type alt_uri t); [destruct (nni_len_ok (length v))|]; reflexivity.
 Qed.
 
 Lemma typed_charset k r : forallb okc k = true -> forallb okc r = true -> forallb in_charset (k ++ 61 :: r) = true.
@@ -216,14 +216,16 @@ Proof.
     destruct (t =? 1); [apply typed_charset; [reflexivity|apply hex_print_okc; exact Hv]|].
     destruct (t =? 2); [apply typed_charset; [reflexivity|apply hex_print_okc; exact Hv]|].
     pose proof (alt_by_type_spec t) as A. destruct (alt_by_type alt_uri t) as [k|].
-    + destruct A as (_ & Hk & _). apply typed_charset; [exact Hk|].
+    + destruct (nni_len_ok (length v)); [|apply uri_body_charset; exact Hv].
+      destruct A as (_ & Hk & _). apply typed_charset; [exact Hk|].
       destruct (dec_print_spec (be_to_N v)) as (_ & Hd & _). apply digits_okc. exact Hd.
     + apply uri_body_charset. exact Hv.
   - unfold to_str_body. split.
     + destruct (t =? 1) eqn:E1; [intros E; destruct s_sha256digest; discriminate|].
       destruct (t =? 2) eqn:E2; [intros E; destruct s_params_sha256; discriminate|].
-      destruct (alt_by_type alt_uri t) as [k|]; [intros E; destruct k; discriminate|].
-      intros E. destruct (uri_body_empty t v Ht E) as [-> ->]. reflexivity.
+      destruct (alt_by_type alt_uri t) as [k|];
+        [destruct (nni_len_ok (length v)); [intros E; destruct k; discriminate|]|];
+        intros E; destruct (uri_body_empty t v Ht E) as [-> ->]; reflexivity.
     + intros E. destruct (comp_enc_generic_empty t v Ht E) as [-> ->]. reflexivity.
 Qed.
 
